@@ -140,6 +140,18 @@ def run(ctx) -> None:
                               lambda k: (k > 0 and miss[k - 1]) or (k < n - 1 and miss[k + 1]), ends, case)
                 judge(ctx, "rate_of_change", "qartod.rate_of_change_test", {"inp": inp(), "tinp": T(n), "threshold": 0.01},
                       miss, lambda k: k > 0 and miss[k - 1], none, case)
+                if n >= 3:
+                    # the time axis need not be sorted for the missing rule to hold (rotations / 3-cycles of the order)
+                    for perm_kind in ("rotated", "cycle3"):
+                        secs = gen.regular(n, 60)
+                        if perm_kind == "rotated":
+                            secs = secs[1:] + secs[:1]
+                        else:
+                            secs = list(secs)
+                            secs[0], secs[1], secs[2] = secs[2], secs[0], secs[1]
+                        judge(ctx, f"rate_of_change|time-{perm_kind}", "qartod.rate_of_change_test",
+                              {"inp": inp(), "tinp": gen.times(secs), "threshold": 0.01}, miss, lambda k: k > 0 and miss[k - 1],
+                              none, {**case, "t": secs})
                 judge(ctx, "flat_line", "qartod.flat_line_test",
                       {"inp": inp(), "tinp": T(n), "suspect_threshold": 60, "fail_threshold": 120, "tolerance": 2}, miss,
                       none, none, case)
@@ -200,4 +212,20 @@ def run(ctx) -> None:
                       lambda k: ma[k] or mb[k] or (k > 0 and (ma[k - 1] or mb[k - 1])), lambda k: k == 0,
                       {**case, "lon": lon, "lat": lat})
     ctx.exhaustive.append(f"all 4^n joint placements for n<={n2} x 4 markers for density inversion, climatology+depth, location, speed")
+    # ---- position grids (N-D): every placement over a 2x2 grid, lon and lat in the same or in different memory layouts
+    for pl in itertools.product((0, 1, 2, 3), repeat=4):
+        i += 1
+        if not ctx.mine(i):
+            continue
+        ma = [p in (1, 3) for p in pl]
+        mb = [p in (2, 3) for p in pl]
+        lonv, latv = [10.0, 10.5, 11.0, 11.5], [50.0, 50.25, 50.5, 50.75]
+        for lay in ("CC", "CF", "FC", "FF"):
+            lo = carrier(lonv, ma, "nan").reshape(2, 2)
+            la = carrier(latv, mb, "nan").reshape(2, 2)
+            lo = np.asfortranarray(lo) if lay[0] == "F" else lo
+            la = np.asfortranarray(la) if lay[1] == "F" else la
+            judge(ctx, f"location-grid-{lay}", "qartod.location_test", {"lon": lo, "lat": la, "bbox": [9, 49, 13, 51]},
+                  [a and b for a, b in zip(ma, mb)], lambda k: ma[k] or mb[k], lambda k: False,
+                  {"placement(0 none,1 first,2 second,3 both)": list(pl), "marker": "nan", "layout(lon,lat)": lay})
     _ = core
